@@ -340,80 +340,108 @@ pub fn case_from_json(v: &Value) -> Case {
 
 pub fn shrink_case(case: Case, mut fails: impl FnMut(&Case) -> bool) -> Case {
     let mut cur = case;
-    let mut budget = 600;
+    let mut budget: i32 = 700;
+    let mut try_ = |c: Case, cur: &mut Case, budget: &mut i32| -> bool {
+        if *budget <= 0 {
+            return false;
+        }
+        *budget -= 1;
+        if fails(&c) {
+            *cur = c;
+            true
+        } else {
+            false
+        }
+    };
+    // non-input dimensions first
+    if cur.clone_at.is_some() {
+        let mut c = cur.clone();
+        c.clone_at = None;
+        c.sched = 0;
+        try_(c, &mut cur, &mut budget);
+    }
+    if cur.ctor != Ctor::NewWithState {
+        let mut c = cur.clone();
+        c.ctor = Ctor::NewWithState;
+        try_(c, &mut cur, &mut budget);
+    }
     loop {
         let mut improved = false;
-        let mut cands: Vec<Case> = vec![];
-        let chars: Vec<char> = cur.input.chars().collect();
-        // halves first, then single deletions
-        if chars.len() > 3 {
-            let h = chars.len() / 2;
-            let mut c = cur.clone();
-            c.input = chars[..h].iter().collect();
-            cands.push(c);
-            let mut c = cur.clone();
-            c.input = chars[h..].iter().collect();
-            cands.push(c);
+        // delta debugging on the input: remove chunks of decreasing size
+        let mut chunk = (cur.input.chars().count() + 1) / 2;
+        while chunk >= 1 && budget > 0 {
+            let chars: Vec<char> = cur.input.chars().collect();
+            let mut i = 0;
+            let mut removed_any = false;
+            while i < chars.len() && budget > 0 {
+                let cur_chars: Vec<char> = cur.input.chars().collect();
+                if i >= cur_chars.len() {
+                    break;
+                }
+                let end = (i + chunk).min(cur_chars.len());
+                let mut v = cur_chars[..i].to_vec();
+                v.extend_from_slice(&cur_chars[end..]);
+                let mut c = cur.clone();
+                c.input = v.into_iter().collect();
+                if try_(c, &mut cur, &mut budget) {
+                    removed_any = true;
+                    improved = true;
+                } else {
+                    i += chunk;
+                }
+            }
+            if !removed_any || chunk == 1 {
+                if chunk == 1 {
+                    break;
+                }
+                chunk /= 2;
+            }
         }
-        for i in (0..chars.len()).rev() {
-            let mut v = chars.clone();
-            v.remove(i);
-            let mut c = cur.clone();
-            c.input = v.into_iter().collect();
-            cands.push(c);
-        }
+        // script
         if !cur.script.is_empty() {
             let mut c = cur.clone();
             c.script.clear();
-            cands.push(c);
+            if try_(c, &mut cur, &mut budget) {
+                improved = true;
+            }
         }
-        for i in (0..cur.script.len()).rev() {
+        let mut i = cur.script.len();
+        while i > 0 && budget > 0 {
+            i -= 1;
+            if i >= cur.script.len() {
+                continue;
+            }
             let mut c = cur.clone();
             c.script.remove(i);
-            cands.push(c);
+            if try_(c, &mut cur, &mut budget) {
+                improved = true;
+                continue;
+            }
             if cur.script[i] != Dec::Ret {
                 let mut c = cur.clone();
                 c.script[i] = Dec::Ret;
-                cands.push(c);
+                if try_(c, &mut cur, &mut budget) {
+                    improved = true;
+                }
             }
         }
-        if cur.clone_at.is_some() {
-            let mut c = cur.clone();
-            c.clone_at = None;
-            c.sched = 0;
-            cands.push(c);
-            if cur.sched != 0 {
-                let mut c = cur.clone();
-                c.sched = 0;
-                cands.push(c);
+        // simplify characters of short inputs
+        let chars: Vec<char> = cur.input.chars().collect();
+        if chars.len() <= 40 {
+            for (i, ch) in chars.iter().enumerate() {
+                if !ch.is_ascii() && budget > 0 {
+                    let mut v = chars.clone();
+                    v[i] = 'x';
+                    let mut c = cur.clone();
+                    c.input = v.into_iter().collect();
+                    if try_(c, &mut cur, &mut budget) {
+                        improved = true;
+                        break;
+                    }
+                }
             }
         }
-        if cur.ctor != Ctor::NewWithState {
-            let mut c = cur.clone();
-            c.ctor = Ctor::NewWithState;
-            cands.push(c);
-        }
-        for (i, ch) in chars.iter().enumerate() {
-            if *ch != 'a' && !ch.is_ascii() {
-                let mut v = chars.clone();
-                v[i] = 'x';
-                let mut c = cur.clone();
-                c.input = v.into_iter().collect();
-                cands.push(c);
-            }
-        }
-        for c in cands {
-            if budget == 0 {
-                return cur;
-            }
-            budget -= 1;
-            if fails(&c) {
-                cur = c;
-                improved = true;
-                break;
-            }
-        }
-        if !improved {
+        if !improved || budget <= 0 {
             return cur;
         }
     }
@@ -586,6 +614,17 @@ pub fn prepare(crate_name: &str, specs: Vec<(&'static str, Spec)>) -> Prepared {
 }
 
 pub fn run(prop: &dyn Prop, tier: Tier) -> i32 {
+    let (ev, code) = run_collect(prop, tier);
+    ev.write();
+    if code == 2 {
+        std::process::exit(2);
+    }
+    code
+}
+
+/// Runs the property and returns the evidence (not yet written) and the exit code
+/// (0 held, 1 violation reported, 2 infrastructure trouble).
+pub fn run_collect(prop: &dyn Prop, tier: Tier) -> (Evidence, i32) {
     let mut ev = Evidence::new(prop.id(), tier);
     let specs = generate_specs(prop, tier);
     let n_specs = specs.len();
@@ -654,10 +693,21 @@ pub fn run(prop: &dyn Prop, tier: Tier) -> i32 {
                                     if nontrivial {
                                         let h = case_hash(si, base);
                                         if st.nontrivial.insert(h) && st.samples.len() < 3 {
+                                            let mut cj = case_to_json(base);
+                                            let n_chars = base.input.chars().count();
+                                            if n_chars > 300 {
+                                                cj["input"] = json!(pipe::trunc(&base.input, 300));
+                                                cj["input_escaped"] = json!(pipe::trunc(&base.input, 100).escape_unicode().to_string());
+                                                cj["input_chars"] = json!(n_chars);
+                                            }
+                                            let mut short = models[0].trace.a.clone();
+                                            short.items.truncate(40);
+                                            short.log.truncate(40);
                                             st.samples.push(json!({
                                                 "lexer": ctx.spec.print_macro("Lexer"),
-                                                "case": case_to_json(base),
-                                                "trace": pipe::trunc(&fmt_run(&models[0].trace.a), 1500),
+                                                "case": cj,
+                                                "trace": pipe::trunc(&fmt_run(&short), 1500),
+                                                "items_in_trace": models[0].trace.a.items.len(),
                                             }));
                                         }
                                     }
@@ -764,7 +814,6 @@ pub fn run(prop: &dyn Prop, tier: Tier) -> i32 {
         "definitions are well-formed by construction: no nullable rule, no empty class, `$` only in tail position".into(),
     ];
     ev.violations = n_viol_total as i64;
-    ev.write();
 
     eprintln!(
         "[{}] {} evaluations on {} lexers, {} distinct non-trivial, {} skipped, {} violations",
@@ -776,25 +825,31 @@ pub fn run(prop: &dyn Prop, tier: Tier) -> i32 {
         n_viol_total
     );
     if n_viol > 0 {
-        return 1;
+        return (ev, 1);
     }
     if prep.excluded.len() * 5 > n_specs {
-        infra(&format!(
+        let msg = format!(
             "{} of {} generated definitions were unusable (first: {}) — the batch is too thin to decide {}; see C12 for the cause",
             prep.excluded.len(),
             n_specs,
             prep.excluded.first().map(|(_, w)| pipe::trunc(w, 300)).unwrap_or_default(),
             prop.id()
-        ));
+        );
+        eprintln!("INFRA-ERROR: {}", msg);
+        println!("INFRA-ERROR: {}", msg);
+        return (ev, 2);
     }
     if t.nontrivial.len() < prop.min_nontrivial(tier) {
-        infra(&format!(
+        let msg = format!(
             "generator starved: only {} distinct non-trivial cases for {}",
             t.nontrivial.len(),
             prop.id()
-        ));
+        );
+        eprintln!("INFRA-ERROR: {}", msg);
+        println!("INFRA-ERROR: {}", msg);
+        return (ev, 2);
     }
-    0
+    (ev, 0)
 }
 
 /// Replays one case of an Engine A replay file. Returns the exit code.
